@@ -274,7 +274,9 @@ func (e *c14Exec) dump() string {
 	}
 	sort.Strings(recs)
 	sort.Slice(sessions, func(a, b int) bool { return sessions[a] < sessions[b] })
-	sort.Slice(shs, func(a, b int) bool { return shs[a].id < shs[b].id || (shs[a].id == shs[b].id && shs[a].key <= shs[b].key) })
+	sort.Slice(shs, func(a, b int) bool {
+		return shs[a].id < shs[b].id || (shs[a].id == shs[b].id && shs[a].key <= shs[b].key)
+	})
 	for _, s := range shs {
 		shadows = append(shadows, fmt.Sprintf("%d:%s", s.id, s.key))
 	}
